@@ -326,7 +326,21 @@ def gen(rng: random.Random, tier: str) -> dict:
         rec["nested"] = _gen_nested(rng, threads)
     if nt > 1:
         k = rng.random()
-        if k < 0.45:
+        if 0.40 <= k < 0.52:
+            # K5 "ping-pong around writes": thread 0 is pre-empted at/just before/after one of its own shared-state writes (or
+            # inside a writer function); thread 1 then runs until just past one of ITS writes and is parked; thread 0 runs
+            # to completion; thread 1 finishes.  Two precisely placed switches - the shape of races in which both parties
+            # hold a half-done update (both took the same spare object, both read before either wrote back ...)
+            rec["sched"] = "K5"
+            q = rng.random()
+            if q < 0.55:
+                spec = {"ws": rng.random(), "d": rng.choice([-1, -1, 0, 0, 1, 2])}
+            elif q < 0.8:
+                spec = {"wc": rng.random(), "loc": rng.random() < 0.5}
+            else:
+                spec = {"fu": rng.random()}
+            rec["switches"] = [[spec, 0], [{"tw": rng.random(), "d": rng.choice([0, 1, 3, 8, 20, 50, 120])}, 0]]
+        elif k < 0.45:
             rec["sched"] = "K1"
             q = rng.random()
             if q < 0.35:
@@ -378,10 +392,11 @@ def _module_warmup():
         sched.set_mode(mode)
 
 
-def _traced(fn, budget=5_000_000, record=False, watch=None):
+def _traced(fn, budget=5_000_000, record=False, watch=None, sampler=None):
     """Run fn() on this thread as simulated thread 0 of a single-thread Sim (steps are counted)."""
     sim = sched.Sim(1, [], [budget], record_trace=record)
     sim.watch = watch
+    sim.sampler = sampler
     sched._cur = sim
     sched._tls.tid = 0
     try:
@@ -392,11 +407,18 @@ def _traced(fn, budget=5_000_000, record=False, watch=None):
     return out, sim
 
 
-def _resolve(switches, t0_steps, total, fu_steps, w0=(), wc_steps=(), wc_locs=None):
+def _resolve(switches, t0_steps, total, fu_steps, w0=(), wc_steps=(), wc_locs=None, w1=(), t1_steps=0):
     out = []
     for spec, pick in switches:
         if "abs" in spec:
             at = spec["abs"]
+        elif "tw" in spec:
+            # relative to the previous switch: thread 1's own step k happens at global step (previous switch) + k
+            prev = out[-1][0] if out else 0
+            if w1:
+                at = prev + w1[min(int(spec["tw"] * len(w1)), len(w1) - 1)] + 1 + spec.get("d", 0)
+            else:
+                at = prev + 1 + int(spec["tw"] * max(t1_steps - 1, 1))
         elif "ws" in spec and w0:
             at = w0[min(int(spec["ws"] * len(w0)), len(w0) - 1)] + 1 + spec.get("d", 0)
         elif "wc" in spec and wc_steps:
@@ -455,9 +477,10 @@ def execute(rec: dict, res: RunResult) -> None:
     # ---- 1. solo outcomes (each call alone on a fresh, identically configured instance in the same start state)
     solo, solo_steps, nest_counts = [], [], {}
     fu_steps: list[int] = []
-    need_w = n > 1 and any(("ws" in s[0] or "wc" in s[0]) for s in rec["switches"])
+    need_w = n > 1 and any(("ws" in s[0] or "wc" in s[0] or "tw" in s[0]) for s in rec["switches"])
     need_fu = need_w or any("fu" in s[0] for s in rec["switches"])
     w0: list[int] = []            # steps of thread 0's first call at which shared state changed
+    w1: list[int] = []            # the same for thread 1's first call
     writer_codes: set[int] = set()
     trace0: list = []
     for t, calls in enumerate(threads):
@@ -477,9 +500,25 @@ def execute(rec: dict, res: RunResult) -> None:
             if cold:
                 shared_state.reset_module_state()
             fp0 = shared_state.fingerprint(twin) if need_w else None
-            out, sim = _traced(run, record=record)
+            sampler = None
+            transient: set = set()
             if need_w:
-                chains = shared_state.changed_chains(fp0, shared_state.fingerprint(twin))
+                # state that is changed and put back before the call returns (a slot emptied while in use, an option
+                # narrowed around a nested parse) is invisible to a before/after comparison: look a few dozen times
+                # DURING the call as well
+                nsamp = [0]
+
+                def sample(twin=twin, fp0=fp0, nsamp=nsamp, transient=transient):
+                    if nsamp[0] < 40:
+                        nsamp[0] += 1
+                        transient.update(shared_state.changed_chains(fp0, shared_state.fingerprint(twin)))
+                sampler = (sample, 120 if rec["gran"] == "LINE" else 600)
+            out, sim = _traced(run, record=record, sampler=sampler)
+            if need_w:
+                final = shared_state.changed_chains(fp0, shared_state.fingerprint(twin))
+                if transient - set(final):
+                    res.count("solo_calls_with_transient_shared_state_changes")
+                chains = sorted(set(final) | transient, key=repr)
                 if chains:
                     # this call writes state that outlives it: run it once more on an identical twin with per-step
                     # probes on exactly the changed places to learn WHEN (the writer's race windows) and WHERE
@@ -495,6 +534,8 @@ def execute(rec: dict, res: RunResult) -> None:
                     writer_codes.update(sim2.trace[w - 1][0] for w in ws)
                     if t == 0 and c == 0:
                         w0 = ws
+                    if t == 1 and c == 0:
+                        w1 = ws
             if record:
                 trace0 = sim.trace
             solo[t].append(out)
@@ -530,11 +571,12 @@ def execute(rec: dict, res: RunResult) -> None:
         res.count("runs_with_write_directed_preemption")
     if need_w:
         res.events.append(["writes", len(w0), len(wc_steps)])
-        if w0 or wc_steps:
+        if w0 or wc_steps or w1:
             # write steps found on a fresh instance lie in the chain compilation, whose internal order follows the
             # iteration order of a set of chain names: under another PYTHONHASHSEED the resolved step may differ
             res.events.append(["hash_order_dependent_schedule"])
-    switches = _resolve(rec["switches"], t0_steps, total, fu_steps, w0, wc_steps, wc_locs) if n > 1 else []
+    switches = _resolve(rec["switches"], t0_steps, total, fu_steps, w0, wc_steps, wc_locs, w1,
+                        solo_steps[1][0] if n > 1 else 0) if n > 1 else []
     budgets = [10 * (sum(solo_steps[t]) + (inner_steps * nested.get("rep", 1) if nested and nested["thread"] == t else 0))
                + 50_000
                for t in range(n)]
@@ -669,6 +711,7 @@ class C13(Engine):
     expected_probes = ["aged_start_runs", "solo_calls_that_write_shared_state", "runs_with_write_directed_preemption",
                        "preemption_in_first_use_window", "overlapped_runs", "nested_reentries_fired", "nested_from_link_hook",
                        "preemptions_fired_K1", "preemptions_fired_K2", "preemptions_fired_K3", "preemptions_fired_K4",
+                       "preemptions_fired_K5",
                        "runs_LINE", "runs_INSTRUCTION"]
     default_workers = 16
 
